@@ -533,6 +533,7 @@ func cmdCache(args []string) int {
 			cacheManyStatements(4500, addViol)
 		}
 		concurrentNewDB(20**stress, addViol)
+		cacheHugeSQL(addViol)
 	}
 	for i := 0; i < *stress; i++ {
 		cacheStress(r.fork(), addViol)
@@ -973,6 +974,44 @@ func dropDBAfterTX(r *rng, add func(violation)) {
 	runtime.KeepAlive(stmt)
 	sqldb.Close()
 	dropFakeDB(f.name)
+}
+
+// cacheHugeSQL: a query whose generated SQL is several MiB long (a slice of 300,000 elements) is run three
+// times on one DB with the same arguments: the driver prepares it once.
+func cacheHugeSQL(add func(violation)) {
+	viol := func(detail string) {
+		add(violation{"C09", "unchanged-query-prepared-again", hx("IN ($IntSlice[:]) with 300,000 elements, run three times"), detail})
+	}
+	cacheStmtCounter++
+	stmt := sqlair.MustPrepare(fmt.Sprintf("SELECT &Person.* FROM person WHERE id IN ($IntSlice[:]) -- huge %d", cacheStmtCounter), Person{}, IntSlice{})
+	sqldb, f := openFake()
+	defer func() { sqldb.Close(); dropFakeDB(f.name) }()
+	f.rowsFor = func(sql string, _ []driver.NamedValue) *rowsScript {
+		rs := defaultRows(sql)
+		rs.Rows = nil
+		return rs
+	}
+	db := sqlair.NewDB(sqldb)
+	sl := make(IntSlice, 300000)
+	for i := 0; i < 3; i++ {
+		var ps []Person
+		if err := db.Query(context.Background(), stmt, sl).GetAll(&ps); err != nil && !errors.Is(err, sqlair.ErrNoRows) {
+			viol("run failed: " + trunc(err.Error(), 200))
+			return
+		}
+	}
+	prepares, execs := 0, 0
+	for _, ev := range f.log() {
+		switch ev.Kind {
+		case "prepare":
+			prepares++
+		case "query", "exec":
+			execs++
+		}
+	}
+	if prepares != 1 || execs != 3 {
+		viol(fmt.Sprintf("%d driver prepares and %d executions for three runs of one unchanged query of %d MiB", prepares, execs, 300000*14>>20))
+	}
 }
 
 // cacheManyStatements: several thousand Statements are alive and prepared on one DB at the same time; every
